@@ -15,6 +15,7 @@ TEXT = {
  "C10": ("proof", "set_y(y).evaluate_ln(x) == ln N(y; Mx+b, Sigma) incl. normaliser with dim(Sigma)=Dy, contexts R=1/N and R=N, all linear classes; returned factor is a batch of N (field leading sizes, product()). Known finding F1 (Dx for Dy) is reported as KNOWN-FINDING."),
  "C13": ("proof", "entropy and KL equal Wick-generated expectations of log-densities (R/R, R/1, 1/R); conditional entropy and mutual information of every conditional class x batch configuration equal the closed forms (sign included). Non-negativity follows from the closed forms (not separately decided)."),
  "C04": ("proof", "Representation invariant (Sigma*Lambda=I, ln_det_Sigma=-ln_det_Lambda=LnDet, mu=Sigma nu, lnZ=Gaussian normaliser; conditionals: Sigma*Lambda=I, ln det) proved for the result of every public operation in the API table (~550 operation x class x context entries) assuming it for the operands: induction over operation histories of any length. Operands: only empty cache fields may be written, with invariant-consistent values (query purity). Sherman-Morrison by clearing denominators (rule 8), determinant lemma and the block-determinant theorem as axioms. Heteroscedastic Woodbury inverse is unclaimed."),
+ "C11": ("other", "PARTIAL: for every linear conditional class and a generic Gaussian prior, the posterior after one observation has the same normal form (mean, precision; covariance as the inverse of that precision) through (a) conditional transformation + condition_on_x, (b) joint transformation + coordinate conditioning, (c) prior * set_y(y) normalised. With C04 (every route returns an invariant density) this is the induction step for any number / order of observations; order independence of the product route is commutativity of natural-parameter addition (C01). NOT decided: the evidence clause (Woodbury; false today for Dx != Dy because of known finding F1) and the Kalman-filter clause."),
  "C12": ("proof", "Batch parametricity: for every public operation x class x batch context, every tensor in the result's normal form that carries an operand's component index carries exactly the result's component index in the documented position (never summed / pinned) - parametric functions commute with slicing for every index array; well-formed batches; slice()/update() field exhaustiveness. jnp.take semantics for repeated/negative indices is library contract (trusted). Known findings F9 (slice inherited by approximate / NN-control classes)."),
  "C14": ("proof", "integrate('log u(x)') for every factor kind x batch, integrate_log_conditional(q) and integrate_log_conditional_y(p_x)(y) (callable and evaluated) of the linear / diagonal / identity-mean conditionals equal Wick-generated expectations for an arbitrary Gaussian q. NN-control by delegation (C15). RBF / squared-exponential feature models are not decided."),
  "C15": ("proof", "Sibling agreement by specialisation: rank-one / linear / constant / low-rank factor products vs the general ConjugateFactor with the same parameters; identity-mean classes vs the general class with M=I, b=0 for every overridden method x batch context; NN-controlled conditional vs the general class with M(u), b(u) = documented split of the network output; diagonal inverse only used in diagonal classes (its body is proved equal to the general inverse under the diagonal precondition in C02)."),
@@ -26,7 +27,6 @@ TEXT = {
 TECH = "static analysis: AST abstract interpretation in a shape x layout x Einstein-normal-form (algebraic value numbering) x effect domain; verdict = syntactic identity of normal forms / shape-layout rules"
 NOTE = "Trusted: CPython ast; gtsa/nf.py rewrite rules 1-9 and layout discipline; gtsa/intrinsics.py transfer functions (documented NumPy/JAX semantics); reference generators (Wick, Normal log-density, Gaussian identities); contract table of cross-object size equalities; model of the dataclass wrapper. Float64 rounding and conditioning are outside the claim."
 NA = {
- "C11": "composition over update histories whose route-equivalence is the Woodbury/Schur theorem applied N times; the normal form's theory has no inverse-of-a-sum identity (DESIGN.md section 5). Single-operation ingredients are decided under C01,C02,C06-C10.",
  "C17": "inequalities and a limit (bound gap -> 0 quadratically) depending on a fixed-point iteration, plus a rank-dependent matrix identity; no shape-generic normal form decides them (DESIGN.md section 5).",
 }
 def main():
